@@ -48,4 +48,11 @@ TEXT = {
         "design_ref": "DESIGN.md section 2, C06",
         "level_note": "Trusted base: hlref.Access bit numbering, hlsim, rapid, synctest fake clock (5 s settle covers the 1 s delayed disconnect).",
     },
+    "C07": {
+        "engine": "E1 bubble world",
+        "technique": "property-based testing / structure-aware fuzzing (rapid, native go fuzz via rapid.MakeFuzz in thorough) of every file- and account-touching request incl. the transfer phase, with a traversal-token dictionary; invariant oracle = directory snapshots outside the legitimate subtree + decoy markers",
+        "level_text": "Generated hostile names, path items, new names, destinations, folder-upload item paths and logins are sent through the real handlers and transfer loops; after every request the whole sandbox outside the subtree the request may legitimately touch must be byte-identical, no alias may point outside, and no decoy content may appear in any reply or stream. Sampled.",
+        "design_ref": "DESIGN.md section 2, C07",
+        "level_note": "Trusted base: hlsim snapshot/diff, the decoy layout, hlref path encoder, reference transfer client. Symlinks pre-planted by an operator inside the root are not modelled.",
+    },
 }
